@@ -397,6 +397,14 @@ func runDeadline(c *Ctx) {
 				n++
 			}
 		}
+		// waiting in a retry back-off (2 s) after a retryable error reply: cancellation must end the wait, also when
+		// the context carries a (far) deadline as well
+		for _, kind := range []string{"retrywait", "retrywaitmulti"} {
+			for _, mode := range []string{"cancel", "canceldl", "done"} {
+				deadlineEpisode(c, n, kind, mode, always)
+				n++
+			}
+		}
 	}
 }
 
@@ -411,10 +419,15 @@ func deadlineEpisode(c *Ctx, n int, kind, mode string, always bool) {
 		}
 		return 0
 	}
-	client, err := rueidis.NewClient(rueidis.ClientOption{
+	dopt := rueidis.ClientOption{
 		InitAddress: []string{"tagsrv:6379"}, DialCtxFn: srv.Dial, ForceSingleClient: true, DisableRetry: true,
 		PipelineMultiplex: -1, AlwaysPipelining: always, BlockingPoolSize: 1, ConnWriteTimeout: 10 * time.Second,
-	})
+	}
+	if strings.HasPrefix(kind, "retrywait") {
+		dopt.DisableRetry = false
+		dopt.RetryDelay = func(int, rueidis.Completed, error) time.Duration { return 2 * time.Second }
+	}
+	client, err := rueidis.NewClient(dopt)
 	if err != nil {
 		c.Fail("deadline:newclient", kind, err.Error())
 		return
@@ -440,6 +453,9 @@ func deadlineEpisode(c *Ctx, n int, kind, mode string, always bool) {
 	case "cancel":
 		ctx, cancel = context.WithCancel(context.Background())
 		time.AfterFunc(limit, cancel)
+	case "canceldl": // cancelled by hand long before its own deadline
+		ctx, cancel = context.WithTimeout(context.Background(), 30*time.Second)
+		time.AfterFunc(limit, cancel)
 	case "done":
 		ctx, cancel = context.WithCancel(context.Background())
 		cancel()
@@ -460,6 +476,10 @@ func deadlineEpisode(c *Ctx, n int, kind, mode string, always bool) {
 			e = client.DoCache(ctx, client.B().Get().Key(tag).Cache(), time.Minute).Error()
 		case "multicache":
 			e = client.DoMultiCache(ctx, rueidis.CT(client.B().Get().Key(tag).Cache(), time.Minute))[0].Error()
+		case "retrywait": // read-only command answered -LOADING: the call sits in the retry back-off
+			e = client.Do(ctx, client.B().Get().Key("lod"+tag).Build()).Error()
+		case "retrywaitmulti":
+			e = client.DoMulti(ctx, client.B().Get().Key("lod"+tag).Build(), client.B().Get().Key("lod"+tag+"b").Build())[0].Error()
 		case "block", "poolwait":
 			e = client.Do(ctx, client.B().Blpop().Key(tag).Timeout(0).Build()).Error()
 		case "sub":
@@ -494,7 +514,7 @@ func deadlineEpisode(c *Ctx, n int, kind, mode string, always bool) {
 	}
 	sent := 0
 	for _, ev := range srv.Events()[before:] {
-		if ev.Kind == "c" && len(ev.Argv) > 1 && strings.HasPrefix(ev.Argv[1], tag) && !strings.HasSuffix(ev.Argv[1], "hold") {
+		if ev.Kind == "c" && len(ev.Argv) > 1 && (strings.HasPrefix(ev.Argv[1], tag) || strings.HasPrefix(ev.Argv[1], "lod"+tag)) && !strings.HasSuffix(ev.Argv[1], "hold") {
 			sent++
 		}
 	}
